@@ -34,7 +34,8 @@ def membership_violations(model, ref, rec, spec):
     idn = rec['ident']
     key = (idn[0], idn[1])
     if key not in ref:
-        out.append(viol('not_an_architecture', f'x={rec["x"]} nodes={sorted(idn[0])} sel={idn[1]}'))
+        out.append(viol('not_an_architecture', f'x={rec["x"]} nodes={sorted(idn[0])} sel={idn[1]}',
+                        data={'nodes': sorted(idn[0]), 'sel': [list(e) for e, _ in idn[1]]}))
         return out
     k = idn[0]
     n_conn = 0
@@ -68,7 +69,7 @@ def check_case(case):
         e = obs.build_exc
         if ref:
             res.add(viol('construct_failed', f'stage={obs.build_stage} {type(e).__name__}: {e} (|ref|={len(ref)})',
-                         sig=f'construct_failed:{exc_sig(e)}'))
+                         sig=f'construct_failed:{exc_sig(e)}', data={'msg': str(e)[:300], 'stage': obs.build_stage}))
         elif type(e).__name__ not in EXPLICIT:
             res.add(viol('crash_on_infeasible', f'stage={obs.build_stage} {type(e).__name__}: {e}',
                          sig=f'crash_on_infeasible:{exc_sig(e)}'))
@@ -79,7 +80,8 @@ def check_case(case):
     for rec in obs.records:
         if rec['exc'] is not None:
             if ref:
-                res.add(viol('decode_failed', f'x={rec["x"]} {rec["exc_msg"]}', sig=f'decode_failed:{rec["exc"]}'))
+                res.add(viol('decode_failed', f'x={rec["x"]} {rec["exc_msg"]}', sig=f'decode_failed:{rec["exc"]}',
+                             data={'msg': rec['exc_msg']}))
             elif rec['exc'].split('@')[0] not in EXPLICIT:
                 res.add(viol('crash_on_infeasible', f'x={rec["x"]} {rec["exc_msg"]}',
                              sig=f'crash_on_infeasible:{rec["exc"]}'))
